@@ -235,7 +235,11 @@ FLimit == IF Args.nolim THEN Offer(Args.c) ELSE SetOf(Args.lim)
 TFIssue == IsEvent("FIssue") /\ (Ok \/ IsError) /\ FCall(Args.c)
           /\ (Ok <=> FIssueOk(Args.c, FLimit))
           /\ FIssue(Args.c, Args.x, FLimit) /\ Projected(Line.abs)
-TFRevoke == IsEvent("FRevoke") /\ Ok /\ FRevoke(Args.c, Args.x) /\ Projected(Line.abs)
+\* (whether the parent's record of the child lists the key as in use is
+\* taken from the record as observed before the request)
+TFRevoke == IsEvent("FRevoke") /\ Ok
+          /\ FRevoke(Args.c, Args.x, Args.x \in SetOf(Rec[l - 1].abs.inuse[Args.c]))
+          /\ Projected(Line.abs)
 
 \* A request the code refuses must leave everything as it was.  (Whether a
 \* refusal is justified is C05's business; here the roll activation is the
